@@ -395,3 +395,95 @@ func walk(b []byte, t int8, level int, on func(level int, size uint32)) (int, bo
 	}
 	return 0, false
 }
+
+// Decode parses one well-formed value of type t (inputs come from the reference encoder or
+// from code under test whose output is being checked); ok=false on any malformation.
+func Decode(b []byte, t int8) (v Value, n int, ok bool) {
+	v.T = t
+	if fs := FixedSize(t); fs > 0 {
+		if len(b) < fs {
+			return v, 0, false
+		}
+		for i := 0; i < fs; i++ {
+			v.I = v.I<<8 | uint64(b[i])
+		}
+		return v, fs, true
+	}
+	switch t {
+	case STRING:
+		if len(b) < 4 {
+			return v, 0, false
+		}
+		l := int32(u32(b))
+		if l < 0 || len(b)-4 < int(l) {
+			return v, 0, false
+		}
+		v.S = append([]byte{}, b[4:4+int(l)]...)
+		return v, 4 + int(l), true
+	case LIST, SET:
+		if len(b) < 5 {
+			return v, 0, false
+		}
+		v.Elem = int8(b[0])
+		cnt := int32(u32(b[1:]))
+		if cnt < 0 || (cnt > 0 && !ValidType(v.Elem)) {
+			return v, 0, false
+		}
+		off := 5
+		v.L = []Value{}
+		for i := int32(0); i < cnt; i++ {
+			e, m, ok := Decode(b[off:], v.Elem)
+			if !ok {
+				return v, 0, false
+			}
+			v.L = append(v.L, e)
+			off += m
+		}
+		return v, off, true
+	case MAP:
+		if len(b) < 6 {
+			return v, 0, false
+		}
+		v.Key, v.Elem = int8(b[0]), int8(b[1])
+		cnt := int32(u32(b[2:]))
+		if cnt < 0 || (cnt > 0 && (!ValidType(v.Key) || !ValidType(v.Elem))) {
+			return v, 0, false
+		}
+		off := 6
+		v.L = []Value{}
+		for i := int32(0); i < cnt; i++ {
+			for _, et := range []int8{v.Key, v.Elem} {
+				e, m, ok := Decode(b[off:], et)
+				if !ok {
+					return v, 0, false
+				}
+				v.L = append(v.L, e)
+				off += m
+			}
+		}
+		return v, off, true
+	case STRUCT:
+		off := 0
+		for {
+			if len(b)-off < 1 {
+				return v, 0, false
+			}
+			ft := int8(b[off])
+			if ft == STOP {
+				return v, off + 1, true
+			}
+			if len(b)-off < 3 || !ValidType(ft) {
+				return v, 0, false
+			}
+			id := int16(uint16(b[off+1])<<8 | uint16(b[off+2]))
+			off += 3
+			e, m, ok := Decode(b[off:], ft)
+			if !ok {
+				return v, 0, false
+			}
+			v.F = append(v.F, Field{ID: id, V: e})
+			off += m
+		}
+	}
+	return v, 0, false
+}
